@@ -168,6 +168,19 @@ def run(tier, replay):
                     add(dline("%s.%d.%d.w%d" % (ent["name"], il, m, n), ent["name"], il, m, (round(w[0], 6), round(w[1], 6)),
                               rng.randrange(1, 2 ** 31), nev),
                         {"kind": "window", "iso": ent["name"], "level": il, "mode": m})
+    # every window-capable mode at least twice with a proper sub-window (the reported full-range/window ratio and the clamped
+    # window are compared with the reference at initialisation), whatever the random sample above contains
+    byname = {e_["name"]: e_ for e_ in tab}
+    for (iso_, il_, modes_) in (("Mo100", 0, (4, 5, 6, 13, 14, 15, 19)), ("Mo100", 1, (8, 16)), ("Nd150", 0, (4, 5, 6, 13, 14, 15, 19)),
+                                 ("Nd150", 1, (8, 16)), ("Cd106", 0, (10,)), ("Ru96", 0, (10,))):
+        ent_ = byname[iso_]
+        lv_ = ent_["levels"][il_]
+        for m_ in modes_:
+            e0_ = e0_of(ent_, lv_, m_)
+            for w_ in ((0.3 * e0_, 0.7 * e0_), (0.55 * e0_, 0.95 * e0_)):
+                n += 1
+                add(dline("%s.%d.%d.v%d" % (iso_, il_, m_, n), iso_, il_, m_, (round(w_[0], 6), round(w_[1], 6)), rng.randrange(1, 2 ** 31), 2),
+                    {"kind": "window-per-mode", "iso": iso_, "level": il_, "mode": m_})
     # every cascade path of every (daughter routine, level), under one or two modes the level's spin allows
     done_paths = set()
     for ent in tab:
